@@ -1,14 +1,14 @@
 #!/bin/bash
-# tools/sweep.sh <tier> <seeds...> : every registered check on the unchanged tree; one summary line per run.
+# tools/sweep.sh <tier> <seeds...> : every registered check (or those named in $CHECKS) on the unchanged tree; one summary line per run.
 # Works from the directory it lives in (so it can run inside a `vp run` snapshot); evidence is not touched.
 TIER=$1; shift
 ROOT=$(cd "$(dirname "$(readlink -f "$0")")/.." && pwd)
 OUT=$ROOT/sweep-$TIER.log
 : > $OUT
 for s in "$@"; do
-  for i in $(seq -w 1 20); do
-    out=$(cd $ROOT && VERIF_SEED=$s VERIF_NO_EVIDENCE=1 ./check C$i $TIER 2>&1); rc=$?
-    echo "seed=$s C$i rc=$rc $(echo "$out" | grep -E "^C$i " | cut -c1-160)" >> $OUT
+  for id in ${CHECKS:-C01 C02 C03 C04 C05 C06 C07 C08 C09 C10 C11 C12 C13 C14 C15 C16 C17 C18 C19 C20}; do
+    out=$(cd $ROOT && VERIF_SEED=$s VERIF_NO_EVIDENCE=1 ./check $id $TIER 2>&1); rc=$?
+    echo "seed=$s $id rc=$rc $(echo "$out" | grep -E "^$id " | cut -c1-160)" >> $OUT
     if [ $rc -ne 0 ]; then echo "$out" | grep -E "VIOLATION|INCONCL|BUILD|detail" | cut -c1-600 >> $OUT; fi
   done
 done
